@@ -118,6 +118,7 @@ type Exec struct {
 	initDone   map[*ssa.Package]bool
 	lastAfterFunc *Term
 	models     []*cachedModel
+	known      map[*Term]bool // facts implied by the path condition (syntactic)
 	ModelHits  int
 }
 
@@ -176,10 +177,32 @@ func (x *Exec) goPanic(msg string) {
 
 // ---------- decisions ----------
 
+func (x *Exec) learn(t *Term, v bool) {
+	if x.known == nil {
+		x.known = map[*Term]bool{}
+	}
+	x.known[t] = v
+	x.known[x.tc.BNot(t)] = !v
+	if v && t.Op == OpBAnd {
+		x.learn(t.Args[0], true)
+		x.learn(t.Args[1], true)
+	}
+	if !v && t.Op == OpBOr {
+		x.learn(t.Args[0], false)
+		x.learn(t.Args[1], false)
+	}
+	if t.Op == OpBNot {
+		if _, ok := x.known[t.Args[0]]; !ok {
+			x.learn(t.Args[0], !v)
+		}
+	}
+}
+
 func (x *Exec) assertPC(t *Term) {
 	if t.IsTrue() {
 		return
 	}
+	x.learn(t, true)
 	x.pcTerms = append(x.pcTerms, t)
 	x.solver.Assert(t)
 	// keep only cached models that still satisfy the path condition
@@ -218,6 +241,9 @@ func (x *Exec) check(extra *Term, timeoutMs int, modelVars []*Term) (SatResult, 
 func (x *Exec) branch(cond *Term) bool {
 	if cond.IsConst() {
 		return cond.Val == 1
+	}
+	if v, ok := x.known[cond]; ok {
+		return v
 	}
 	if x.pos < len(x.prefix) {
 		d := x.prefix[x.pos]
